@@ -64,7 +64,19 @@ func prepare(work string) (string, string) {
 	}
 	overlay := filepath.Join(gen, "overlay.json")
 	bin := filepath.Join(work, "vharness")
-	if err := run(filepath.Join(verifDir, "harness"), "go", "build", "-overlay", overlay, "-o", bin, "."); err != nil {
+	buildArgs := []string{"build", "-overlay", overlay, "-o", bin}
+	if repoDir != "/repo" {
+		// another checkout of the repository (scratch worktree): same harness module, replace directive redirected
+		mod, err := os.ReadFile(filepath.Join(verifDir, "harness", "go.mod"))
+		if err != nil {
+			die("read harness go.mod: %v", err)
+		}
+		alt := filepath.Join(work, "harness.mod")
+		os.WriteFile(alt, []byte(strings.Replace(string(mod), "=> /repo", "=> "+repoDir, 1)), 0644)
+		buildArgs = append(buildArgs, "-modfile="+alt)
+	}
+	buildArgs = append(buildArgs, ".")
+	if err := run(filepath.Join(verifDir, "harness"), "go", buildArgs...); err != nil {
 		die("instrumented build of the harness against %s failed (see stderr): %v", repoDir, err)
 	}
 	return bin, overlay
